@@ -543,3 +543,33 @@ def narrow_one(di, rng):
             return None
         return dict(di, members=dict(di['members'], **{k: m}))
     return None
+
+
+def with_lone_surrogate(di, w, rng):
+    """-> (value, True) with one character of one isUTF8 string leaf replaced by a lone surrogate code point, or
+    (w, False) if there is no suitable leaf.  A lone surrogate is not well-formed Unicode: the reference model does not
+    judge whether such a string is a member; checks use it only for values the real datatype has accepted"""
+    t = di['type']
+    if t == 'string':
+        if di.get('isUTF8') and isinstance(w, str) and len(w) >= 1:
+            i = rng.randrange(len(w))
+            return w[:i] + rng.choice(['\ud83d', '\udc00', '\ud800']) + w[i + 1:], True
+        return w, False
+    if t == 'array' and isinstance(w, list) and w:
+        i = rng.randrange(len(w))
+        v, ok = with_lone_surrogate(di['members'], w[i], rng)
+        return (w[:i] + [v] + w[i + 1:], True) if ok else (w, False)
+    if t == 'tuple' and isinstance(w, list):
+        for i in rng.sample(range(len(w)), len(w)):
+            v, ok = with_lone_surrogate(di['members'][i], w[i], rng)
+            if ok:
+                return w[:i] + [v] + w[i + 1:], True
+        return w, False
+    if t == 'struct' and isinstance(w, dict):
+        for k in rng.sample(sorted(w), len(w)):
+            if k in di['members']:
+                v, ok = with_lone_surrogate(di['members'][k], w[k], rng)
+                if ok:
+                    return dict(w, **{k: v}), True
+        return w, False
+    return w, False
